@@ -15,7 +15,7 @@ Overflow gives ±inf with `ERANGE`; a subnormal-or-zero result that is inexact g
 well (glibc); exact subnormals do not.  The generators stay away from the subnormal boundary.
 -/
 namespace Percival.Model.Strtod
-open Percival.Spec.Numeral Percival.Model.Strto
+open Percival.Spec.Numeral Percival.Spec.Parsenum Percival.Model.Strto
 
 /-- a floating-point datum: `fin neg q` is `(-1)^neg · q` with `q ≥ 0` (so `fin true 0` is -0.0) -/
 inductive Fl
